@@ -85,6 +85,32 @@ CHECKS = {
             "intervals never widen, contain the final cost and converge in finitely many steps are statements about "
             "runtime numbers and are NOT decided by this check.",
             "DESIGN.md section 4 C04"),
+    "C01": ("abstract evaluation of slice bounds as linear forms in len() terms; table agreement between the cell writer "
+            "and the step reader of the alignment matrix; set-algebra shape, yield-count path analysis and same-slot "
+            "def-use checks on compound-edit constructors; on_diff resolution through the MRO",
+            "Static analysis of the PARTITION SHAPE of every compound edit - each from-side element consumed by exactly one "
+            "emitted sub-edit and each to-side element by exactly one - which is decided for all inputs and options at "
+            "once: (R01a) the positional edit removes/inserts exactly children[min(n,m):] and pairs zip(from, to); (R01b) "
+            "the alignment matrix's cell->edit table and step table agree, the back-trace walks from the last cell to the "
+            "origin, trimming is symmetric and re-emitted in order (any monotone path of coherent steps is a valid "
+            "partition, so for list scripts these conditions are also sufficient); (R01c) multiset partition T-F / F-T / "
+            "F&T and pre-match bookkeeping; (R01d) keyed partition with exactly one emission per pair on every path; "
+            "(R01e) same-slot pairing and component coverage; (R01f) on_diff coverage of all 17 concrete edit classes; "
+            "(R01g) diff pushes the refined script. That equal-looking elements are the right ones to pair (values) and "
+            "the third-party assignment are NOT decided.",
+            "DESIGN.md section 4 C01"),
+    "C10": ("def-use/keyword analysis of node constructor sites in the builders, finite evaluation (truth table) of the "
+            "selection guard in ListNode.edits and of main's flag logic, guard dominance on KeyValuePairEdit sites, "
+            "symbolic slice evaluation",
+            "Static analysis: (R10a) every document list a loader/builder constructs receives both list options from the "
+            "options object, mappings are selected by allow_key_edits with auto_match_keys set, recursive build calls keep "
+            "the options, and main maps -l/-ll/-k/--dict-strategy to BuildOptions with the documented polarity (evaluated "
+            "exhaustively); (R10b) the guard in ListNode.edits is evaluated over all flag settings x lengths 0..3 and "
+            "selects the positional edit exactly when list edits are off; (R10c=R01a) only a surplus tail is removed or "
+            "inserted; (R10d, R01c, R01d) differing keys are paired only under allow_key_edits, `none` looks partners up "
+            "by the same key, `auto` pre-matches by key equality without skipping candidates. Which pairs the assignment "
+            "picks among the allowed ones is NOT decided.",
+            "DESIGN.md section 4 C10"),
 }
 
 NOT_YET = "check not built yet in this session (static rules designed in DESIGN.md; will be claimed once the rule runs clean)"
